@@ -151,7 +151,8 @@ class C03(spec.Spec):
             ref = st.ref
             key.append(tuple(sorted(
                 (s, tuple(sorted((p, "?" if u is AMBIG else u) for p, u in sc.bind.items())),
-                 tuple(sorted(sc.alias)), tuple(sorted(sc.reg)), sc.default)
+                 tuple(sorted(sc.alias)), tuple(sorted(sc.reg)), "?" if sc.default is AMBIG else sc.default,
+                 tuple(sorted((u, str(p_)) for u, p_ in sc.primary.items())))
                 for s, sc in ref.sc.items())))
             key.append(tuple(sorted(ref.default_touched.items())))
             return repr(key)
